@@ -147,6 +147,12 @@ func (a *AVP) Len() int {
 	return a.headerLen() + a.Data.Len() + a.Data.Padding()
 }
 
+// wireLen returns the number of bytes the AVP occupies in the buffer it was
+// decoded from: the declared AVP Length rounded up to a multiple of four.
+func (a *AVP) wireLen() int {
+	return a.Length + (4-a.Length&3)&3
+}
+
 func (a *AVP) headerLen() int {
 	if a.Flags&avp.Vbit == avp.Vbit {
 		return 12
